@@ -66,8 +66,8 @@ Print Assumptions c31_commit_quorum_claimed_endorser_refuted.
 
 (** The receive path of the current source has the shape the model assumes. *)
 Theorem c31_intake_as_modelled :
-  recv_verifies_sender_sig = true /\ intake_checks_endorser_sigs = false /\
-  intake_checks_claimed_identity = false.
+  recv_verifies_sender_sig = true /\ own_sigs_mandatory = true /\
+  intake_checks_endorser_sigs = false /\ intake_checks_claimed_identity = false.
 Proof. exact intake_shape_current. Qed.
 Print Assumptions c31_intake_as_modelled.
 
